@@ -1,6 +1,7 @@
 """C20 — mirroring never affects the primary path.
 
-P: coq/Mirror/Props.v (c20_noninterference[_env|_world], c20_same_as_without_mirrors,
+P: coq/Mirror/Props.v (c20_noninterference[_env|_world], c20_same_as_without_mirrors, c20_client_path_independent,
+   c20_valid_cfg_attaches_all,
    c20_never_blocks, c20_send_always_completes, c20_mirror_sees_subsequence,
    c20_mirror_only_own_server, c20_attachment, c20_no_partial[_deliver], c20_env_only_removes,
    c20_queue_bounded) over coq/Mirror/Model.v; the channel capacity and the shape facts the
@@ -17,6 +18,16 @@ T2: wire harness.  Every scenario is run TWICE with the same scripted client pro
         targets (buffer boundaries = pgcat's own buffering rule: a Query alone, an extended batch
         up to Sync, CopyData up to the flush threshold / CopyDone), never traffic of another
         server, no connection at all for a mirror whose target index has no server.
+   (iv) primary-path round-trip monitor (robust under load): for each fault kind (mirrors unreachable / refusing longer than
+        connect_timeout, hung at startup, hung, not reading), with 1 and with 2 runtime workers, ONE process runs 20 small round
+        trips through a pool without mirrors and then the same 20 through the mirrored pool (2 server connections x 2 mirrors)
+        while the fault lasts; violation only if the faulted median > 10 x the baseline median AND > 150 ms (confirmed on a
+        re-run).  This is a monitor of the real code; the theorem is c20_client_path_independent, whose assumption (a waiting
+        mirror task does not hold a runtime worker) is exactly what is observed here.
+   (v)  configuration dimension plugins (prewarmer with 1-2 statements, query_logger; global and pool level): the mirror log
+        must still be a subsequence WITH multiplicities of one connection of the mirrored server (a mirror's own connection
+        must not run the prewarmer itself); large statements (64 KiB .. 4 MiB) into a mirror that stops reading for 1.5 s and
+        then reads again: every frame the mirror parsed afterwards is one the server got, in order.
    (iii) differential against the Coq model where the schedule is deterministic (healthy mirror:
         everything; mirror down from the start: exactly the first `capacity` buffers once it is up)
         and for the attachment function on every generated mapping.
@@ -736,7 +747,10 @@ def check(run):
         "Coq 8.16.1 kernel + vm_compute; Print Assumptions: closed under the global context for every theorem",
         "coq/Mirror/Model.v is a hand transcription of mirrors.rs, Server::send/startup/Drop and the attachment loop of pool.rs (validated per run over the wire); "
         "tokio mpsc semantics (bounded FIFO, try_send never waits, capacity()==0 iff full), bb8 (max_size 1, get() waits at most connection_timeout) and tokio task isolation are environment assumptions",
-        "translate/mirror_consts.py extracts channel::<Bytes>(N) and checks the shape facts (plain fn + try_send, mirror_send first in Server::send, attachment by index equality) on the current source",
+        "translate/mirror_consts.py extracts channel::<Bytes>(N) and checks the shape facts (plain fn + try_send, mirror_send first in Server::send, attachment by index equality, "
+        "no blocking call in mirrors.rs, the task's write awaited to its end or the connection marked bad, no plugins for the mirror's own pool) on the current source",
+        "c20_client_path_independent models a mirror-task step as taking nothing from the client path; that a waiting mirror task holds no runtime worker is observed by the round-trip monitor "
+        "(median of 20 round trips with 1 and 2 workers, against the same script without mirrors in the same process), not proved",
         "buffer boundaries on the wire are reconstructed with pgcat's own buffering rule (Query alone / extended batch up to Sync / CopyData up to >8196 bytes or CopyDone); statement caching off",
         "mock backends (harness/src/mockpg.rs) play the real servers and the mirrors; 'no added waiting' is checked only against a coarse bound (%d ms per request), not as wall-clock latency" % LAT_BOUND_MS,
     ]
@@ -852,6 +866,9 @@ def check(run):
              "by_fault": {}, "by_cfg": {}, "req_kinds": {}, "max_latency_ms_with_mirrors": 0.0, "drops_observed": 0}
     samples = []
     for cs in cases:
+        if len(run.violations) >= 5:
+            cs["failed"] = True     # enough witnesses: do not spend minutes confirming more of the same
+            continue
         run.cov["evaluations"] += 1
         bad = check_pair(cs["cfg"], cs["program"], cs["sched"], cs["res_m"], cs["res_b"])
         if bad and bad[0][0] == "harness":
@@ -1001,6 +1018,9 @@ def check(run):
             continue
         m = latency_eval(res)
         hung = failed(res)          # the whole scenario did not finish in 200 s
+        if (hung or latency_verdict(m)) and len([v for v in run.violations if "C20 latency" in v[0]]) >= 3:
+            lat_ev["%s/workers=%d" % kw] = m     # recorded, not confirmed: three witnesses are reported already
+            continue
         if hung or latency_verdict(m):
             # confirm alone
             r2 = W.run_scenario(wire, lat_scn[kw], timeout=200)
